@@ -183,6 +183,10 @@ func (r *rewriter) run() {
 		if shim, ok := importSeams[p]; ok {
 			r.replaceImport(imp, p, shim)
 		}
+		if p == "net" && filepath.Dir(r.rel) == "client" {
+			// the RPC client talks to an in-memory, scheduler-aware connection
+			r.replaceImport(imp, p, "vnet")
+		}
 		if p == "os" && osSeamFiles[r.rel] {
 			r.replaceImport(imp, p, "vos")
 		}
